@@ -4,6 +4,7 @@
 From Coq Require Import ZArith List Bool QArith.
 Import ListNotations.
 From GV Require Import Common.Wire C08.Model C09.Model C09.Lemmas.
+From GV Require gen.Gen_catroi.
 Open Scope Q_scope.
 
 (* from_range_exact: for any number of categories, a category index k different from both bounds is kept by
@@ -113,3 +114,51 @@ Print Assumptions nan_not_selected.
 Theorem dispatch_total : forall r xk yk, path_shape (path_of r xk yk) (roi_to_state r xk yk) = true.
 Proof. exact Lemmas.dispatch_total. Qed.
 Print Assumptions dispatch_total.
+
+(* jitter_ignored: the categorical arrays of a dataset may carry display offsets (CategoricalComponent jitter: .codes = index + j);
+   whatever the offsets - one pair (x, y) per element, in particular every vector with |j| < 1/2 - the mask the model computes (the one
+   run_case returns) is the mask of the offset-free elements *)
+Theorem jitter_ignored : forall st es js, length js = length es ->
+  mask_j st (jitter_elems es js) = map (sem st) (map strip es).
+Proof. exact Lemmas.jitter_ignored. Qed.
+Print Assumptions jitter_ignored.
+
+(* displayed_nearest: for -1/2 <= j < 1/2 the category index is the nearest integer of the displayed coordinate k + j *)
+Theorem displayed_nearest : forall k j, -(1 # 2) <= j -> j < 1 # 2 -> nearest (inject_Z k + j) = k.
+Proof. exact Lemmas.displayed_nearest. Qed.
+Print Assumptions displayed_nearest.
+
+(* range_jitter_exact: from_range selects an element displayed at d = k + j exactly when the nearest category position of d lies
+   strictly between the bounds (any number of categories, k on neither bound) *)
+Theorem range_jitter_exact : forall n lo hi k j d, (0 <= k < n)%Z -> -(1 # 2) <= j -> j < 1 # 2 ->
+  ~ inject_Z k == lo -> ~ inject_Z k == hi -> displayed (JCode k j) = Some d ->
+  (zmem k (from_range n lo hi) = true <-> lo < inject_Z (nearest d) /\ inject_Z (nearest d) < hi).
+Proof. exact Lemmas.range_jitter_exact. Qed.
+Print Assumptions range_jitter_exact.
+
+(* range_dispatch_jitter: the same through roi_to_state and the mask of a jittered element *)
+Theorem range_dispatch_jitter : forall n lo hi g yk k j c, (0 <= k < n)%Z -> -(1 # 2) <= j -> j < 1 # 2 ->
+  ~ inject_Z k == lo -> ~ inject_Z k == hi ->
+  mask_j (roi_to_state (R2 (Range true lo hi) g) (KCat n) yk) [(JCode k j, c)] =
+  [Qltb lo (inject_Z (nearest (inject_Z k + j))) && Qltb (inject_Z (nearest (inject_Z k + j))) hi].
+Proof. exact Lemmas.range_dispatch_jitter. Qed.
+Print Assumptions range_dispatch_jitter.
+
+(* ---- the source itself: coq/gen/Gen_catroi.v is regenerated from glue/core/roi.py and glue/core/subset.py on every run ---- *)
+
+(* from_range_translated: what CategoricalROI.from_range (rounding of the bounds, the slice, update_categories) stores, translated from
+   the source, is the model's stored_from_range - for all category lists and all bounds *)
+Theorem from_range_translated : forall cats lo hi, Gen_catroi.from_range_stored cats lo hi = stored_from_range cats lo hi.
+Proof. exact Lemmas.from_range_translated. Qed.
+Print Assumptions from_range_translated.
+
+(* contains_translated: CategoricalROI.contains, translated from the source, is the model's cat_contains_ss *)
+Theorem contains_translated : forall stored x, Gen_catroi.contains (Some stored) x = cat_contains_ss stored x.
+Proof. exact Lemmas.contains_translated. Qed.
+Print Assumptions contains_translated.
+
+(* dispatch_translated: the state built at the leaf which the translated decision tree of roi_to_subset_state reaches is the model's
+   roi_to_state, for every region class and every pair of axis kinds *)
+Theorem dispatch_translated : forall r xk yk, build r xk yk = roi_to_state r xk yk.
+Proof. exact Lemmas.dispatch_translated. Qed.
+Print Assumptions dispatch_translated.
